@@ -35,7 +35,7 @@ ROW_KIND = {
 def run(ctx):
     repo = ctx.repo
     res = Result(PROP)
-    res.rules = ["K1", "K2", "K5", "M-MAP", "M-EMPTY", "M-DTYPE", "M-ZERO", "M-ALIGN", "M-FLOW", "M-NORM", "M-IDEM", "M-THRESH"]
+    res.rules = ["K1", "K2", "K5", "M-MAP", "M-EMPTY", "M-DTYPE", "M-ZERO", "M-ALIGN", "M-FLOW", "M-NORM", "M-IDEM", "M-THRESH", "M-FANCY"]
     res.explanation = (
         "Narrow claim: kind inference over the matrix builders plus provenance of the returned index maps, definite "
         "assignment in the degenerate-shape branches and a dependency check on the multi-order normaliser. The numerical "
@@ -77,6 +77,10 @@ def run(ctx):
                      "def adjacency_matrix(H, s=1, weighted=False):\n    A = count(H)\n    if not weighted:\n        np.minimum(A, 1, out=A)\n    A[A < s] = 0\n    return A\n",
                      lambda n: f"`{unparse(n, 60)}` collapses the co-membership counts to 0/1 on a path on which they have not yet been compared with `s`; for s >= 2 the later comparison sees only 0 and 1 and removes every entry, so the matrix no longer marks the pairs that share at least s edges",
                      "collapse of the counts before the comparison with the threshold")
+        pattern_lint(res, PROP, "M-FANCY", fns, buffered_fancy_updates,
+                     "def adjacency(links, n):\n    i, j = np.array(links).T\n    A = np.zeros((n, n), dtype=int)\n    A[i, j] += 1\n    return A\n",
+                     lambda nd: f"`{unparse(nd, 40)}` updates a matrix in place through index arrays; NumPy buffers such an update and applies it ONCE per distinct index tuple, so repeated pairs (parallel edges, a pair of nodes sharing several edges) are counted once instead of added up (np.add.at / a sparse product accumulate)",
+                     "in-place updates through index arrays")
         from .common import check_dead_params, misaligned_zips
 
         nd = check_dead_params(res, PROP, "M-FLOW", fns, "the matrix or the index maps returned")
@@ -95,6 +99,31 @@ def run(ctx):
                     res.add(mk_finding(PROP, "M-ALIGN", fn, z, f"{fn.qualname}: `{unparse(z, 50)}` pairs sequences that were filtered or reordered differently ({detail}); element i of one meets element j of another - a weight is applied to the wrong order", role="zip"))
         res.floor("pairwise-consumed sequences in linalg", nz, 1)
     return res
+
+
+def buffered_fancy_updates(fn_node):
+    """`A[i, j] += v` / `A[idx] -= v` where an index is an array or list (bound from np.array / asarray / where /
+    nonzero / .T / a list or comprehension / a tuple-unpacking of one of those)."""
+    arrays = set()
+    for st in ast.walk(fn_node):
+        if isinstance(st, ast.Assign):
+            v = st.value
+            src = v
+            while isinstance(src, ast.Attribute) and src.attr == "T":
+                src = src.value
+            is_arr = isinstance(src, (ast.List, ast.ListComp)) or (isinstance(src, ast.Call) and getattr(src.func, "attr", getattr(src.func, "id", None)) in ("array", "asarray", "where", "nonzero", "argwhere", "flatnonzero", "fromiter", "concatenate", "repeat", "tile", "arange") )
+            if not is_arr:
+                continue
+            for t in st.targets:
+                for x in ast.walk(t):
+                    if isinstance(x, ast.Name):
+                        arrays.add(x.id)
+    for st in ast.walk(fn_node):
+        if isinstance(st, ast.AugAssign) and isinstance(st.op, (ast.Add, ast.Sub)) and isinstance(st.target, ast.Subscript):
+            idx = st.target.slice
+            elts = idx.elts if isinstance(idx, ast.Tuple) else [idx]
+            if any(isinstance(e, ast.Name) and e.id in arrays for e in elts) or any(isinstance(e, (ast.List, ast.ListComp)) for e in elts):
+                yield st
 
 
 def collapse_before_threshold(fn_node):
